@@ -231,6 +231,38 @@ def dress(progs, rng, follower_pct, restart_pct, sc0=0):
     return progs
 
 
+def with_hold(progs, sc0):
+    """Limbo programs again, with a reader holding the server lock across the deadline: the EXPIRE / PERSIST / SET that reaches
+    the object past its deadline queues behind the reader together with the sweeper, and whichever gets the lock first when
+    the reader ends decides the run.  (An implementation that decides what to expire in one critical section and deletes it
+    in another is exposed only by such contention.)"""
+    out = []
+    for p in progs:
+        dl = {}            # (k, i) -> tick of the pending deadline
+        hold = None
+        for s in p["h"]:
+            if s["op"] == "probe":
+                break
+            ki = (s.get("k"), s.get("i"))
+            if s["op"] in ("expire", "persist", "set") and ki in dl and dl[ki] <= s["at"] <= dl[ki] + 2 and dl[ki] >= 2:
+                hold = {"at": dl[ki] - 1, "ticks": (s["at"] - dl[ki]) + 5}
+                break
+            if s["op"] in ("set", "expire") and s.get("ttl", -1) >= 0:
+                dl[ki] = s["at"] + s["ttl"]
+            elif s["op"] in ("set", "persist", "del", "jset", "rename"):
+                dl.pop(ki, None)
+        if hold:
+            q = json.loads(json.dumps(p))
+            q["hold"] = hold
+            q["tag"] = "hold"
+            q["racy"] = True          # the probe is not comparable: every later step is delayed by the reader
+            q["sc"] = sc0 + len(out)
+            q["attach"] = -1
+            q["restart"] = False
+            out.append(q)
+    return out
+
+
 # ------------------------------------------------------------------------------- execution and judgement
 def execute(ctx, progs, label, par=PAR, spin=False):
     src = os.path.join(ctx.scratch, "progs_%s.ndjson" % label)
@@ -349,6 +381,8 @@ def run_and_judge(ctx, progs, label, report=True, retries=2, spin=False):
     redo = []
     for rj in rejs:
         sc = rj["sc"]
+        if by_prog[sc].get("hold") and set(rj["why"]) <= TIMING_WHY:
+            continue       # the sweeper cannot run while a reader holds the lock: lateness is not judged in these programs
         if set(rj["why"]) <= TIMING_WHY and stalled(runs[sc]):
             redo.append(sc)
         else:
@@ -540,10 +574,15 @@ def run(ctx):
         progs += dress(limbo, rng, follower_pct=0, restart_pct=30, sc0=len(progs))
         for p in limbo:
             p["attach"] = 0
+        held = with_hold(limbo, sc0=len(progs))
+        progs += held
         rng.shuffle(progs)
         nshapes = nshapes_obj + nshapes_two + nshapes_hook
-        ctx.log("programs: %d stale-timer / expiry programs of the cover (%d shapes), %d random, %d bursts, %d limbo; %d with a follower" % (
-            len(cover), nshapes, len(sims), len(burst), len(limbo), sum(p["attach"] >= 0 for p in progs)))
+        ctx.log("programs: %d stale-timer / expiry programs of the cover (%d shapes), %d random, %d bursts, %d limbo, %d limbo under "
+                "lock contention; %d with a follower" % (
+            len(cover), nshapes, len(sims), len(burst), len(limbo), len(held), sum(p["attach"] >= 0 for p in progs)))
+        if not held:
+            raise common.Infra("no limbo program could be run under lock contention (vacuous)")
         res = run_and_judge(ctx, progs, "main")
         extra = []
         if not ctx.quick:
@@ -607,7 +646,7 @@ def run(ctx):
         "design_actions_taken": dres["coverage"],
         "broken_variants_refuted": dres["refuted"],
         "programs_run": len(runs),
-        "programs_by_tag": {t: sum(1 for p in progs if p["tag"] == t) for t in ("stale", "expiry", "limbo", "sim")},
+        "programs_by_tag": {t: sum(1 for p in progs if p["tag"] == t) for t in ("stale", "expiry", "limbo", "sim", "hold")},
         "cover_shapes": nshapes,
         "polls_issued": sum(r["polls"] for r in runs.values()),
         "trace_events_judged": {k: cnt[k] for k in ("writes", "reads", "ttls", "ttlsdl", "htt", "xdels", "xhooks", "freads", "ends",
